@@ -183,6 +183,9 @@ def l2_chunk(args):
 
 
 # ------------------------------------------------------------------------------------------------ L3
+INT_TAG = {"A1": 7, "gB": 12, "gC": 3}      # integer-typed BAM tag values (XI:i:7), group names are their decimal strings
+
+
 def l3_world(mode, third_locus=False):
     """reads designed to be unique FSM; returns world(s), expected read->group map, cli extras"""
     from vlib import worlds as W, syn
@@ -209,8 +212,10 @@ def l3_world(mode, third_locus=False):
         r = W.read_of(name, c, W.exons(7000 if t == "T5" else 1000, slots), strand=strand)
         if mode == "tag" and grp:
             r["tags"] = {"RG": grp}
+        if mode == "tagint" and grp:
+            r["tags"] = {"XI": INT_TAG[grp]}
         reads.append(r)
-        groups[name] = grp or "NA"
+        groups[name] = (grp or "NA") if mode != "tagint" else (str(INT_TAG[grp]) if grp else "NA")
         iso[name] = t
     # a multi-mapped read: secondary alignment in an intergenic stretch of chr1 (first chromosome in BAM order), primary FSM of T4
     # on chr2 -> the retained locus is on chr2 and must be counted under the read's documented group gB
@@ -223,8 +228,11 @@ def l3_world(mode, third_locus=False):
     if mode == "tag":
         mm1["tags"] = {"RG": "gB"}
         mm2["tags"] = {"RG": "gB"}
+    if mode == "tagint":
+        mm1["tags"] = {"XI": INT_TAG["gB"]}
+        mm2["tags"] = {"XI": INT_TAG["gB"]}
     reads += [mm1, mm2]
-    groups[mm_name] = "gB"
+    groups[mm_name] = "gB" if mode != "tagint" else str(INT_TAG["gB"])
     iso[mm_name] = "T4"
     w["reads"] = reads
     return w, groups, iso
@@ -278,6 +286,8 @@ def l3_case(args):
         argv += ["--bam", paths["bam"]]
         if mode == "tag":
             argv += ["--read_group", "tag:RG"]
+        elif mode == "tagint":
+            argv += ["--read_group", "tag:XI"]
         elif mode == "read_id":
             argv += ["--read_group", "read_id:_"]
         else:
@@ -437,8 +447,9 @@ def run(ctx):
             ctx.violation("l2:%s:%s" % (kind, level), "reads %s, group order %s, format %s: %s" % (list(reads), list(order), fmt, msg),
                           {"reads": list(reads), "order": list(order), "format": fmt})
     jobs = []
-    universes = {"tag": ["A1", "gB", "gC", "NA"], "read_id": ["A1", "gB", "gC", "NA"], "file": ["A1", "gB", "gC", "NA"], "file_name": ["L1", "L2"]}
-    for mode in ("tag", "read_id", "file", "file_name"):
+    universes = {"tag": ["A1", "gB", "gC", "NA"], "read_id": ["A1", "gB", "gC", "NA"], "file": ["A1", "gB", "gC", "NA"], "file_name": ["L1", "L2"],
+                 "tagint": ["12", "3", "7", "NA"]}
+    for mode in ("tag", "tagint", "read_id", "file", "file_name"):
         for fmt in ("both",) if quick else ("matrix", "linear", "both"):
             orders = list(itertools.permutations(universes[mode]))
             if quick:
